@@ -91,10 +91,11 @@ type state struct {
 	events []Event
 	trunc  string
 	seq    int
+	epoch  int // number of lock acquisitions so far: reads of a bound store's map in different critical sections are different values
 }
 
 func (s *state) clone() *state {
-	n := &state{mem: make(map[string]*Term, len(s.mem)), trunc: s.trunc, seq: s.seq}
+	n := &state{mem: make(map[string]*Term, len(s.mem)), trunc: s.trunc, seq: s.seq, epoch: s.epoch}
 	for k, v := range s.mem {
 		n.mem[k] = v
 	}
@@ -127,6 +128,7 @@ type Engine struct {
 	out        []Summary
 	root       *ssa.Function
 	opaque     map[string]bool  // canonical callee names never inlined
+	globalInit map[string]*Term // initial values of package-level variables that are never reassigned after init (key: gaddr term key)
 	hof        map[string]int   // opaque higher-order callee -> index of the function argument it runs (modelled as one synchronous call)
 	bind       map[string]*Term // term key -> replacement (composition presets)
 	stats      struct{ paths, pruned, loopcut int }
@@ -265,6 +267,7 @@ func (e *Engine) run(s *state) []*state {
 				if !ok {
 					continue // statically dead branch
 				}
+				deterministic := f.T == nil
 				if f.T != nil {
 					ns.seq++
 					f.Seq = ns.seq
@@ -283,6 +286,14 @@ func (e *Engine) run(s *state) []*state {
 				tgt := fB
 				if pol {
 					tgt = tB
+				}
+				if deterministic {
+					// the other branch is statically dead: an iteration decided by constants (a loop over a literal
+					// table) does not count against the unrolling bound
+					nfr.visits[-5000-tgt.Index]++
+					if nfr.visits[-5000-tgt.Index] < 256 {
+						nfr.visits[tgt.Index]--
+					}
 				}
 				if !e.enter(nfr, tgt) {
 					e.stats.loopcut++
@@ -711,6 +722,10 @@ func (e *Engine) doCall(s *state, fr *frame, v *ssa.Call, c *ssa.CallCommon) boo
 		}
 	}
 	s.emit(ev)
+	switch d.callee {
+	case "(*sync.RWMutex).Lock", "(*sync.RWMutex).RLock", "(*sync.Mutex).Lock":
+		s.epoch++
+	}
 	if idx, isHof := e.hof[d.callee]; isHof && idx < len(d.args) && fr.depth < e.maxDepth {
 		fa := d.args[idx]
 		var opFn *ssa.Function
@@ -878,6 +893,9 @@ func (e *Engine) load(s *state, addr *Term, typ types.Type) *Term {
 	}
 	switch addr.Kind {
 	case "gaddr":
+		if v, ok := e.globalInit[addr.key]; ok {
+			return v
+		}
 		return e.rebind(mk("global", addr.Name, 0, typ))
 	case "faddr":
 		base := addr.Args[0]
@@ -912,9 +930,31 @@ func (e *Engine) load(s *state, addr *Term, typ types.Type) *Term {
 		return mk("zero", typeStr(typ), 0, typ)
 	case "cell":
 		if isLocalAddr(addr) {
+			// a struct element assembled field by field
+			if typ != nil {
+				if st, ok := typ.Underlying().(*types.Struct); ok {
+					var fs []*Term
+					for i := 0; i < st.NumFields(); i++ {
+						if fv, ok := s.mem[mk("faddr", st.Field(i).Name(), 0, nil, addr).key]; ok {
+							fs = append(fs, mk("fieldval", st.Field(i).Name(), 0, nil, fv))
+						}
+					}
+					if len(fs) > 0 {
+						return mk("structval", typeStr(typ), 0, typ, fs...)
+					}
+				}
+			}
 			return mk("zero", typeStr(typ), 0, typ)
 		}
 		return mk("deref", "", 0, typ, addr)
+	case "indexaddr":
+		// element of a slice literal with a constant index
+		if addr.Args[0].Kind == "varargs" && addr.Args[1].Kind == "const" {
+			if c, ok := constVal(addr.Args[1]); ok && c.IsInt64() && c.Int64() >= 0 && int(c.Int64()) < len(addr.Args[0].Args) {
+				return addr.Args[0].Args[c.Int64()]
+			}
+		}
+		return e.rebind(mk("deref", "", 0, typ, addr))
 	case "freevar", "param":
 		// pointer-typed free variable (captured variable cell) or parameter
 		return e.rebind(mk("deref", "", 0, typ, addr))
@@ -983,6 +1023,9 @@ func (e *Engine) eval(s *state, fr *frame, v ssa.Value) *Term {
 				return mk("const", r, 0, x.Type())
 			}
 		}
+		if r, ok := foldStatusCode(x.Op, a, b); ok {
+			return mk("const", r, 0, x.Type())
+		}
 		return mk("binop", x.Op.String(), 0, x.Type(), a, b)
 	case *ssa.FieldAddr:
 		base := e.val(s, fr, x.X)
@@ -1012,9 +1055,12 @@ func (e *Engine) eval(s *state, fr *frame, v ssa.Value) *Term {
 					var el []*Term
 					anyCell := arr.Len() == 0
 					for i := int64(0); i < arr.Len(); i++ {
-						k := mk("cell", fmt.Sprint(i), 0, nil, base).key
-						if cv, ok := s.mem[k]; ok {
+						cellT := mk("cell", fmt.Sprint(i), 0, nil, base)
+						if cv, ok := s.mem[cellT.key]; ok {
 							el = append(el, cv)
+							anyCell = true
+						} else if lv := e.load(s, cellT, arr.Elem()); lv.Kind == "structval" {
+							el = append(el, lv)
 							anyCell = true
 						} else {
 							el = append(el, mk("zero", "", 0, nil))
@@ -1040,14 +1086,18 @@ func (e *Engine) eval(s *state, fr *frame, v ssa.Value) *Term {
 		if mt, ok := x.X.Type().Underlying().(*types.Map); ok {
 			vt = mt.Elem()
 		}
+		ep := 0
+		if anySub(m, func(t *Term) bool { return t.Kind == "preset" }) {
+			ep = s.epoch // value of a bound store's map as of this critical section
+		}
 		if x.CommaOk {
-			return mk("tuple", "", 0, nil, mk("lookup", "val", 0, vt, m, k), mk("lookup", "ok", 0, types.Typ[types.Bool], m, k))
+			return mk("tuple", "", 0, nil, mk("lookup", "val", ep, vt, m, k), mk("lookup", "ok", ep, types.Typ[types.Bool], m, k))
 		}
 		if vt == nil { // string index
 			s.emit(Event{Kind: "index", Recv: m, Args: []*Term{k}, Pos: x.Pos(), Ctx: fr.ctx, Depth: fr.depth, InFn: fr.fn})
 			return mk("index", "", 0, x.Type(), m, k)
 		}
-		return mk("lookup", "val", 0, x.Type(), m, k)
+		return mk("lookup", "val", ep, x.Type(), m, k)
 	case *ssa.Extract:
 		t := e.val(s, fr, x.Tuple)
 		if t.Kind == "tuple" && x.Index < len(t.Args) {
@@ -1137,6 +1187,69 @@ func foldConst(op token.Token, a, b *Term) (string, bool) {
 		}
 	}
 	return "", false
+}
+
+// foldStatusCode decides status.Code(e) ==/!= c when e's provenance fixes the answer: an error built by
+// status.Error(f)(c', ...) has code c'; an error produced by database/sql, errors.New or fmt.Errorf over such errors is
+// not a gRPC status (assumption recorded in the evidence), so its code is OK (nil) or Unknown.
+func foldStatusCode(op token.Token, a, b *Term) (string, bool) {
+	if op != token.EQL && op != token.NEQ {
+		return "", false
+	}
+	if b.Kind == "call" && a.Kind == "const" {
+		a, b = b, a
+	}
+	if a.Kind != "call" || b.Kind != "const" {
+		return "", false
+	}
+	var e *Term
+	switch {
+	case a.Name == "google.golang.org/grpc/status.Code" && len(a.Args) == 3:
+		e = a.Args[2]
+	case strings.HasSuffix(a.Name, "status.Status).Code") && len(a.Args) >= 2 && a.Args[1] != nil && a.Args[1].Kind == "call" && len(a.Args[1].Args) == 3 &&
+		(a.Args[1].Name == "google.golang.org/grpc/status.Convert" || a.Args[1].Name == "google.golang.org/grpc/status.FromError"):
+		e = a.Args[1].Args[2]
+	}
+	if e == nil {
+		return "", false
+	}
+	if e.Kind == "nil" { // status.Code(nil) is codes.OK
+		return fmt.Sprint((b.Name == "0") == (op == token.EQL)), true
+	}
+	if e.Kind == "call" && (e.Name == "google.golang.org/grpc/status.Error" || e.Name == "google.golang.org/grpc/status.Errorf") && len(e.Args) > 2 && e.Args[2].Kind == "const" {
+		return fmt.Sprint((e.Args[2].Name == b.Name) == (op == token.EQL)), true
+	}
+	if notGRPCStatus(e) && b.Name != "0" && b.Name != "2" {
+		return fmt.Sprint(op == token.NEQ), true
+	}
+	return "", false
+}
+
+func notGRPCStatus(e *Term) bool {
+	if e == nil || e.Kind != "call" {
+		return false
+	}
+	switch {
+	case strings.Contains(e.Name, "database/sql."):
+		return true
+	case e.Name == "errors.New":
+		return true
+	case e.Name == "fmt.Errorf":
+		for _, a := range e.Args[2:] {
+			bad := false
+			anySub(a, func(t *Term) bool {
+				if t.Typ != nil && isErrorType(t.Typ) && !notGRPCStatus(t) {
+					bad = true
+				}
+				return false
+			})
+			if bad {
+				return false
+			}
+		}
+		return true
+	}
+	return false
 }
 
 func abs64(x int64) int64 {
